@@ -559,6 +559,9 @@ func genOverflowCase(rr *h.Rand, capacity int) hubCase {
 // histCompared: how often the stream of the first '*' watcher was compared with the hub's history (evidence counter).
 var histCompared int
 
+// liveVsHistory: how many connections had their stream compared with the filtered history.
+var liveVsHistory int
+
 func hubOracles(hr *hubRun, cs hubCase, o *gen.Oracle) []h.Violation {
 	var vs []h.Violation
 	add := func(key, what string) {
@@ -688,6 +691,74 @@ func hubOracles(hr *hubRun, cs hubCase, o *gen.Oracle) []h.Violation {
 		}
 		if !lc.done.Load() {
 			open++
+		}
+	}
+	// C05/C06 — live delivery agrees with the history, connection by connection. With the persistent transport and
+	// no retention the bucket holds every update the hub accepted (publications and subscription events), in the
+	// accepted order, with its topics and its private flag. A connection that is still open, was never stalled and did
+	// not ask for a replay has been handed exactly the entries stored since its registration that its selectors match
+	// and, when private, its subscribe claim authorises (the harness's own reading of the protocol relation), in that
+	// order — minus the events of its own registration. Implementation alone.
+	if bt, ok := hr.f.tr.(*mercure.BoltTransport); ok && cs.Size == 0 && !hr.stopped {
+		clean := true
+		for _, op := range cs.Ops {
+			switch op.Op {
+			case "close", "restart", "stall", "corrupt":
+				clean = false
+			}
+		}
+		if clean {
+			func() {
+				defer func() { recover() }()
+				keys, vals := mercure.VerifBoltRaw(bt)
+				type ent struct {
+					id      string
+					topics  []string
+					private bool
+				}
+				var hist []ent
+				for i := range keys {
+					var u mercure.Update
+					if json.Unmarshal(vals[i], &u) != nil {
+						return
+					}
+					hist = append(hist, ent{u.ID, u.Topics, u.Private})
+				}
+				for _, lc := range hr.conns {
+					si, known := subs[lc.label]
+					if !known || lc.done.Load() || lc.histLen < 0 || lc.histLen > len(hist) || hr.replayed[lc.label] || lc.w.deadlineErr || lc.w.flushErr {
+						continue
+					}
+					own := sidOf[lc.label]
+					var want, got []string
+					for _, e := range hist[lc.histLen:] {
+						// (a subscription event's update id is a generated UUID: it is its topic that names the subscriber)
+						ownEvent := false
+						for _, t := range e.topics {
+							if own != "" && (strings.HasSuffix(t, "/"+url.QueryEscape(own)) || strings.HasSuffix(t, "/"+url.PathEscape(own))) {
+								ownEvent = true
+							}
+						}
+						if ownEvent {
+							continue
+						}
+						if matchAny(e.topics, si.sels) && (!e.private || matchAny(e.topics, si.claim)) {
+							want = append(want, e.id)
+						}
+					}
+					for _, e := range sseParse(lc.w.Body()) {
+						got = append(got, e.ID)
+					}
+					liveVsHistory++
+					if strings.Join(got, "\n") != strings.Join(want, "\n") {
+						for _, k := range []string{"C05", "C06"} {
+							add(k+":live-stream-differs-from-the-history-it-matches", fmt.Sprintf("connection %d (selectors %q, subscribe claim %q), open and never stalled, received %q; the updates stored since its registration that it matches are %q", lc.label, si.sels, si.claim, got, want))
+						}
+
+						break
+					}
+				}
+			}()
 		}
 	}
 	// C12: one event per update, decoding to what was published (id, type, retry, data), in order — on the
